@@ -37,7 +37,7 @@ META = {
     'components_stub': ['clock (virtual, advanced by the workload)', 'S3 bucket', 'service and environment'],
     'budgets': {'quick': {'seconds': 30}, 'thorough': {'seconds': 480}},
     'required_probes': {'thorough': ['interrupt_inside_body', 'interrupt_after_outputs', 'exception_after_outputs', 'class_level_operation',
-                                     'extractor_failed', 'lookup_separated_incomplete', 'earlier_run_of_same_operation']},
+                                     'extractor_failed', 'lookup_separated_incomplete', 'earlier_run_of_same_operation', 'subclass_of_decorated_base', 'invoked_while_handling_an_exception']},
 }
 
 
@@ -74,6 +74,12 @@ def _run(tape, clock):
     spec = R.gen_service(tape, run, max_steps=10, threads=False)
     R.fill_outcomes(tape, run, spec)
     spec.op.extractor = extractor
+    if tape.draw(5) == 4:
+        spec.op.subclass_of_decorated_base = True
+        run.probe('subclass_of_decorated_base')
+    within_except = tape.draw(4) == 3
+    if within_except:
+        run.probe('invoked_while_handling_an_exception')
     spec.user_metadata = {'user_key': V.gen_faithful(tape, run, 1), 'n': tape.draw(5), 'flag': bool(tape.draw(2))}
     io = [s for s in R.flat_steps(spec.body) if s[0] in ('in', 'out')]
     run.config = {'io_steps': [s[0] for s in io]}
@@ -105,7 +111,7 @@ def _run(tape, clock):
             # an earlier run of the very same decorated operation, with another outcome and other extracted metadata
             run.probe('earlier_run_of_same_operation')
             keep = (spec.body, spec.op.extractor, spec.user_metadata)
-            spec.body = tape.choice([[], [['raise', R.D.ErrA]], [['interrupt']]])
+            spec.body = tape.choice([[], [['raise', R.D.ErrA]], [['interrupt']], [['discard']], [['discard'], ['raise', R.D.ErrB]]])
             spec.op.extractor = 'ok' if keep[1] is not None else None     # the decorator is given an extractor or not once
             spec.user_metadata = {'earlier_only': 'x', 'n': 99}
             first = R.record_once(spec, run, cas, recorder=recorder)
@@ -113,7 +119,12 @@ def _run(tape, clock):
             earlier = first
             spec.body, spec.op.extractor, spec.user_metadata = keep
         t0 = clock.now
-        rec = R.record_once(spec, run, cas, recorder=recorder, service=service)
+        if tape.draw(4) == 3 and earlier is not None and earlier.saved:
+            # ... and a replay on the same recorder in between
+            run.probe('replay_before_the_run')
+            R.replay_once(spec, run, cas, earlier.rec_id, recorder=recorder)
+            recorder.enable_recording()
+        rec = R.record_once(spec, run, cas, recorder=recorder, service=service, within_except=within_except)
         t1 = clock.now
         body_time = rec.svc.slept
         run.say('operation: %r saved=%s wall=%.4f slept=%.4f' % (rec.outcome, rec.saved, t1 - t0, body_time))
